@@ -583,6 +583,158 @@ def case_cadence(c):
     return res
 
 
+
+# ------------------------------------------------------------------ Box D: histories on ONE cadence object
+H_OPS = ['inj_full', 'inj_tail', 'inj_even', 'inj_label', 'inj_single', 'set1', 'ins0', 'app', 'del0']
+H_FLAGS = [dict(), dict(integrate_path=True, integrate_t_profile=True, t_subsamples=3), dict(doppler_smearing=True, smearing_subsamples=3)]
+H_G = dict(df=1.0, dt=2.0, fch1=200.0, fchans=16, tchans=3)
+
+
+def _h_sig():
+    f0, drift = 203.25, 0.004
+
+    def path(t):
+        return f0 + drift * np.asarray(t)
+
+    def tprof(t):
+        return 2.0 + 0.001 * np.asarray(t)
+    return path, tprof
+
+
+def case_history(c):
+    """Every history of up to `depth` operations from H_OPS on one (Ordered)Cadence built from real frames: injections
+    into the whole cadence, into slices / label selections of it, into one member directly, and list edits in
+    between.  After EVERY operation each frame ever involved must hold init + the sum of the shifted single-frame
+    injections it was a member of (twin frames), its ts must be bit-identical to the start, and building a selection
+    must not move any frame's start time."""
+    import itertools
+    import setigen as stg
+    viol = []
+    res = {'viol': viol, 'n': 0, 'transitions': 0, 'traces': 0, 'state_keys': set(), 'outcomes': set()}
+
+    def V(site, failure, detail, hist):
+        viol.append({'site': site, 'failure': failure, 'detail': 'history %s: %s' % ('>'.join(hist), detail)})
+
+    G = H_G
+    kw = dict(c['flags'])
+    path, tprof = _h_sig()
+    import setigen as stg
+    fprof = stg.gaussian_f_profile(width=2.0)
+
+    def new_frame(k, t_start):
+        fr = stg.Frame(fchans=G['fchans'], tchans=G['tchans'], df=G['df'], dt=G['dt'], fch1=G['fch1'], ascending=True, t_start=t_start)
+        fr.data = np.full((G['tchans'], G['fchans']), 0.5 * (k + 1))
+        return fr
+
+    checked = set()
+    for depth in range(1, c['depth'] + 1):
+        for tail in itertools.product(H_OPS, repeat=depth - len(c['head'])) if depth >= len(c['head']) else ():
+            hist = list(c['head']) + list(tail)
+            if len(hist) != depth:
+                continue
+            # fresh world
+            starts = [100.0, 100.0 + 6.0 + 31.5, 100.0 + 2 * 6.0 + 31.5 + 212.25]
+            frames = [new_frame(k, t) for k, t in enumerate(starts)]
+            pool = [new_frame(10 + k, 2000.0 + 333.5 * k) for k in range(depth)]      # frames added later
+            early = [new_frame(20 + k, 40.0 - 9.5 * k) for k in range(depth)]         # frames inserted in front (earlier)
+            allf = frames + pool + early
+            twins = {id(f): (f, new_frame(0, 0.0)) for f in allf}
+            for f, tw in twins.values():
+                tw.data = f.data.copy()
+            ts0 = {id(f): np.array(f.ts, copy=True) for f in allf}
+            if c['kind'] == 'ordered':
+                cad = stg.OrderedCadence(list(frames), order='ABACAD', t_slew=c['slew'], t_overwrite=c['over'])
+            else:
+                cad = stg.Cadence(list(frames), t_slew=c['slew'], t_overwrite=c['over'])
+            npool = nearly = 0
+            ok = True
+            for j, op in enumerate(hist):
+                pre = tuple(hist[:j + 1])
+                fresh = pre not in checked
+                tstart_before = {id(f): f.t_start for f in allf}
+                X = None
+                try:
+                    if op == 'inj_full':
+                        X = cad
+                    elif op == 'inj_tail':
+                        X = cad[1:]
+                    elif op == 'inj_even':
+                        X = cad[::2]
+                    elif op == 'inj_label':
+                        X = cad.by_label('A') if c['kind'] == 'ordered' else cad[[i for i in range(len(cad.frames) - 1, -1, -2)]]
+                    elif op == 'inj_single':
+                        if len(cad.frames) >= 2:
+                            f = cad.frames[1]
+                            f.add_signal(path, tprof, fprof, **kw)
+                            twins[id(f)][1].add_signal(path, tprof, fprof, **kw)
+                    elif op == 'set1':
+                        if len(cad.frames) >= 2:
+                            cad[1] = pool[npool]; npool += 1
+                    elif op == 'ins0':
+                        cad.insert(0, early[nearly]); nearly += 1
+                    elif op == 'app':
+                        cad.append(pool[npool]); npool += 1
+                    elif op == 'del0':
+                        if len(cad.frames) >= 2:
+                            del cad[0]
+                except Exception as e:
+                    if fresh:
+                        V('Cadence', 'operation_raised', '%s raised %s: %s' % (op, type(e).__name__, e), pre)
+                    ok = False
+                    break
+                if X is not None:
+                    # building a selection moves no frame in time
+                    moved = [k for k, f in enumerate(allf) if f.t_start != tstart_before[id(f)]]
+                    if moved and fresh:
+                        V('Cadence.__getitem__', 'selection_moved_start_times',
+                          'building the selection for %s changed t_start of frame(s) %s (e.g. %r -> %r)'
+                          % (op, moved, tstart_before[id(allf[moved[0]])], allf[moved[0]].t_start), pre)
+                        ok = False
+                        break
+                    mem = list(X.frames)
+                    if mem:
+                        t_first = mem[0].t_start
+                        try:
+                            X.add_signal(path, tprof, fprof, **kw)
+                        except Exception as e:
+                            if fresh:
+                                V('Cadence.add_signal', 'raised', '%s raised %s: %s' % (op, type(e).__name__, e), pre)
+                            ok = False
+                            break
+                        for f in mem:
+                            D = f.t_start - t_first
+                            twins[id(f)][1].add_signal(_shift(path, D), _shift(tprof, D), fprof, **kw)
+                if fresh:
+                    checked.add(pre)
+                    res['transitions'] += 1
+                    for k, f in enumerate(allf):
+                        tw = twins[id(f)][1]
+                        if not _same_ts(f.ts, ts0[id(f)]):
+                            V('Cadence.add_signal', 'ts_not_restored', 'after %s frame #%d ts differs from its initial value' % (op, k), pre)
+                            ok = False
+                        got, want = np.asarray(f.data), tw.data
+                        if got.shape != want.shape or np.abs(got - want).max() > 1e-7 * 2.5:
+                            j2 = np.unravel_index(int(np.argmax(np.abs(got - want))), got.shape) if got.shape == want.shape else None
+                            V('Cadence.add_signal', 'history_signal_mismatch',
+                              'after %s frame #%d (t_start %r, %s) holds %r at %s; the shifted single-frame injections it was a member of give %r'
+                              % (op, k, f.t_start, 'member' if any(f is g for g in cad.frames) else 'not a member',
+                                 None if j2 is None else float(got[j2]), j2, None if j2 is None else float(want[j2])), pre)
+                            ok = False
+                    res['state_keys'].add('%s/%d/%d' % (c['kind'], len(cad.frames), j))
+                    res['outcomes'].add('%s/%s' % (op, 'ok' if ok else 'bad'))
+                if not ok:
+                    break
+            res['traces'] += 1
+            res['n'] += 1
+            if len(viol) > 12:
+                break
+    res['state_keys'] = sorted(res['state_keys'])
+    res['outcomes'] = sorted(res['outcomes'])
+    res['nontrivial'] = [engine.sha(c)]
+    res['viol'] = viol[:12]
+    return res
+
+
 # ------------------------------------------------------------------ enumeration
 def _valid(c):
     """Array forms need one common tchans in the injected object; array bandpass + integrate_f_profile and
@@ -655,16 +807,25 @@ def run(ctx):
     cases = _cases(ctx.tier, ctx.seed)
     ctx.pmap(case_cadence, cases)
     thorough = ctx.tier == 'thorough'
+    hdepth = 4 if thorough else 3
+    hcases = [dict(box='D', kind=kind, over=over, slew=slew, flags=fl, head=[h], depth=hdepth, seed=ctx.seed)
+              for kind in ('plain', 'ordered') for (over, slew) in ((False, 0), (True, 17.5)) for fl in H_FLAGS for h in H_OPS]
+    ctx.pmap(case_history, hcases, chunk=1)
     return ctx.finish(
         rule='three completely enumerated boxes: A = frame count 1..4 x geometry x start-time pattern x tchans '
              'pattern x cadence view x 4 core signals x all 16 flag combinations (quick: 16 for two of the signals, '
              'the 4 corner combinations for the other two; thorough: x sub-sample counts); B = all '
              'path x t_profile x f_profile x bandpass forms x flags on fixed cadences; C = sequences of 2 and 3 '
-             'injections.  Inside each case EVERY fault (injection r, callable slot, k-th invocation, k = 1..count '
+             'injections; D = EVERY history of up to %d operations from {inject into the whole cadence / its tail / every '
+             'second frame / a label or index selection / one member directly, item assignment, insert in front, append, '
+             'delete} on one plain or ordered cadence (with and without start-time overwriting) x 3 flag sets, each frame '
+             'compared after every operation with the sum of the shifted single-frame injections it was a member of.  '
+             'Inside each case of boxes A-C EVERY fault (injection r, callable slot, k-th invocation, k = 1..count '
              'measured in the fault-free run) is executed on a freshly built cadence; evaluations = fault-free runs + '
              'fault runs.  A case is non-trivial when the injected cadence object has >= 2 frames and the shifted '
              'single-frame reference of some frame differs from the unshifted one by more than 1e4 x tolerance '
-             '(the offset matters); distinct = distinct case dicts.  counters.fault_runs_in_shifted_frame counts '
+             '(the offset matters); distinct = distinct case dicts.' % hdepth +
+             '  counters.fault_runs_in_shifted_frame counts '
              'faults landing while a frame with D != 0 was being injected.',
         assumptions=['single-frame Frame.add_signal on a twin frame (ts[0] == 0) is the reference for the shifted signal '
                      '(its own correctness is C01); the linear-path/gaussian family is additionally compared with an '
